@@ -3,12 +3,11 @@ CONSTANTS
   Export = TRUE
   ShapeSet = {"flat", "mixed", "twins"}
   ValSet = "three"
+  DataMod = 5
+  Track = TRUE
 SPECIFICATION Spec
-INVARIANT EnvIsEnvelope
-INVARIANT OrderIndependent
-INVARIANT LabelLaw
-INVARIANT FormLaws
-INVARIANT SplitLaw
 INVARIANT Bounded
+INVARIANT FreshAfterForm
+INVARIANT CleanAfterDelete
 INVARIANT ExportHist
 CHECK_DEADLOCK FALSE
